@@ -167,3 +167,72 @@ func VerifC09Delivery(v *vrt.T) {
 	}
 	v.Reach("end")
 }
+
+// VerifC09ConcurrentCollect: two tasks publish their first event to the same (new) topic
+// concurrently, a third party registers a handler; goroutine switches are explored at every
+// lock acquisition (bounded number of preemptions). Whatever the interleaving: one topic,
+// both events counted and visible, each with the right previous state, and a registered
+// handler is not lost.
+func VerifC09ConcurrentCollect(v *vrt.T) {
+	ts := NewTopics(0)
+	h := &verifRecHandler{name: "h"}
+	idA, idB := v.String("idA", 1), v.String("idB", 1)
+	lvlA, lvlB := Level(v.IntRange("lvlA", 0, 3)), Level(v.IntRange("lvlB", 0, 3))
+	withReg := v.Choose("register", 2) == 1
+	done := make(chan struct{}, 3)
+	start := make(chan struct{}) // released together so that the native run really races
+	n := 2
+	go func() {
+		<-start
+		ts.Collect(Event{Topic: "t", State: EventState{ID: idA, Level: lvlA, Message: "a"}})
+		done <- struct{}{}
+	}()
+	go func() {
+		<-start
+		ts.Collect(Event{Topic: "t", State: EventState{ID: idB, Level: lvlB, Message: "b"}})
+		done <- struct{}{}
+	}()
+	if withReg {
+		n = 3
+		go func() {
+			<-start
+			ts.RegisterHandler("t", h)
+			done <- struct{}{}
+		}()
+	}
+	close(start)
+	for i := 0; i < n; i++ {
+		<-done
+	}
+	t, ok := ts.Topic("t")
+	v.Assert(ok, "topic exists")
+	if !ok {
+		return
+	}
+	v.Observe("collected", t.Collected())
+	v.Assert(t.Collected() == 2, "both events are counted on the one topic")
+	sa, okA := t.EventState(idA)
+	sb, okB := t.EventState(idB)
+	v.Assert(okA && okB, "both events are visible in the topic state")
+	if idA != idB && okA && okB {
+		v.Assert(sa.Level == lvlA && sb.Level == lvlB, "each ID holds its own level")
+		max := lvlA
+		if lvlB > max {
+			max = lvlB
+		}
+		v.Assert(t.MaxLevel() == max, "topic level is the maximum")
+	}
+	if withReg {
+		// the handler must be attached to the surviving topic: a later event reaches it
+		ts.Collect(Event{Topic: "t", State: EventState{ID: "z", Level: Critical}})
+		v.Goroutines()
+		got := false
+		for _, s := range h.seen {
+			if s.id == "z" {
+				got = true
+			}
+		}
+		v.Assert(got, "a handler registered during the race receives later events")
+	}
+	v.Reach("end")
+}
